@@ -64,3 +64,38 @@ fn f30_fdt_start_id_above_20_bits() {
     }
     assert!(w.objects.borrow().iter().any(|o| o.borrow().complete), "object delivered");
 }
+
+// ---- F32 (C01): the trailer of a gzip / zlib stream that falls into a later source block than the last content byte is an error ---------
+#[test]
+fn f32_encoded_stream_trailer_in_a_later_block() {
+    for cenc in [flute::core::lct::Cenc::Gzip, flute::core::lct::Cenc::Zlib] {
+        // 4-byte blocks: the 8-byte gzip trailer (4-byte zlib checksum) always lies in blocks of its own
+        let oti = Oti::new_no_code(4, 1);
+        let data: Vec<u8> = vec![1, 2, 3, 4, 5];
+        let cfg = flute::sender::TransferConfig { oti: Some(oti.clone()), cenc, ..Default::default() };
+        let pkts = session(&Oti::new_no_code(1400, 64), data.clone(), cfg);
+        let (mut r, w) = receiver();
+        let now = SystemTime::now();
+        for p in &pkts {
+            let _ = r.push(&endpoint(), p, now);
+        }
+        let objs = w.objects.borrow();
+        let got = objs.iter().find(|o| o.borrow().complete).map(|o| o.borrow().data.clone());
+        assert_eq!(got, Some(data), "{:?} object with small source blocks", cenc);
+    }
+}
+
+// ---- F31 (C08): a non-empty object whose first block cannot be encoded is announced as closed by a bogus "empty object" packet ----------
+#[test]
+fn f31_close_object_packet_for_an_object_that_could_not_be_encoded() {
+    // raptor_code refuses source blocks of 2 or 3 symbols: block creation fails in the sender
+    let oti = Oti::new_raptor(4, 2, 2, 1, 4).unwrap();
+    let cfg = flute::sender::TransferConfig { oti: Some(oti.clone()), ..Default::default() };
+    let pkts = session(&Oti::new_no_code(1400, 64), vec![1, 2, 3, 4, 5], cfg);   // debug builds: debug_assert panics inside Sender::read
+    for p in pkts.iter().filter(|p| !is_fdt(p)) {
+        let alc = flute::core::alc::parse_alc_pkt(p).unwrap();
+        let payload_len = p.len() - alc.data_payload_offset;
+        assert!(!(alc.lct.close_object && payload_len == 0),
+                "a 5-byte object was announced as closed by a packet without any symbol");
+    }
+}
